@@ -269,9 +269,10 @@ whose meaning is defined):
    last start close nothing (`intervals_from_bounds` made `(DATE_START, end)` intervals of them).  The code now
    computes the reading documented at `shift`/`dateInstance`: occurrences exist on the years chrono can
    represent, shifted days are pinned at its extreme dates.
-Refinement and hint soundness are PROVED for every offset within ±92 000 000 days between two fixed dates without
-a year, ±30 000 000 days from a start with a year to a yearless end, ±300 000 days when a bound is Easter, and for
-any offsets when both bounds carry a year (OH/Props/C01.lean
+Refinement is PROVED for EVERY offset between two fixed dates without a year and between two bounds with a year,
+within ±30 000 000 days from a start with a year to a yearless end and ±300 000 days when a bound is Easter; hint
+soundness within ±92 000 000 days for two fixed yearless dates (±300 000 with Easter; no condition after a start
+with a year) (OH/Props/C01.lean
 `exprDatedPlain`, OH/Props/C02B.lean `exprHintSafe`); beyond that the model is compared with this specification
 by brute force (lean/scratch/BFDated.lean) and by the oracle on generated offsets up to ±10⁹ days. -/
 
